@@ -21,7 +21,13 @@ func runRebal(sc Scenario, tr *Trace, seed int64) {
 	freeze()
 	tick := time.Duration(numOr(sc.Cfg, "tick_ms", 1000)) * time.Millisecond
 	tab := newURLTable(seed + int64(numOr(sc.Cfg, "table", 0)))
-	next := http.HandlerFunc(func(w http.ResponseWriter, _ *http.Request) { w.WriteHeader(200) })
+	inflightLat := 0
+	next := http.HandlerFunc(func(w http.ResponseWriter, _ *http.Request) {
+		if inflightLat > 0 { // a slow backend: the clock moves while the request is being proxied
+			advance(time.Duration(inflightLat) * tick)
+		}
+		w.WriteHeader(200)
+	})
 	rr, err := roundrobin.New(next)
 	if err != nil {
 		fatal("rr.New: %v", err)
@@ -99,7 +105,11 @@ func runRebal(sc Scenario, tr *Trace, seed int64) {
 				}
 			}
 			rec := httptest.NewRecorder()
+			inflightLat = numOr(st, "lat", 0)
 			rb.ServeHTTP(rec, httptest.NewRequest(http.MethodGet, "http://front/", nil))
+			if inflightLat > 0 {
+				tr.Emit(M{"e": "Adv", "d": inflightLat}) // the request is judged at its completion time
+			}
 			tr.Emit(M{"e": "Req", "meters": ms, "weights": weights(), "status": rec.Code})
 		default:
 			fatal("rebal: unknown op %v", st)
